@@ -224,6 +224,18 @@ def date_reuse_programs(draw):
 
 
 @st.composite
+def timed_cleanup_cases(draw):
+    """until-blocks whose interrupts arrive one after the other while the body is busy with clean-up that takes time
+    (nested `finally` clauses that suspend), and a bounded clean-up (an until-block entered inside a `finally`)."""
+    if draw(st.integers(0, 2)) == 0:
+        inner = draw(st.sampled_from([['delay', 5], ['delay', 1], ['time_eq', 9], ['time_ge', 7.5]]))
+        return {'tc': {'shape': 'bounded', 'deadlines': [draw(st.sampled_from([1, 2, 2.5]))], 'inner': inner, 'dur': 0}}
+    k = draw(st.integers(1, 4))
+    ds = draw(st.permutations([1, 2, 3, 4.5, 5]))[:k]
+    return {'tc': {'shape': 'nested', 'deadlines': list(ds), 'stages': draw(st.integers(max(1, k - 1), k + 1)), 'dur': 7}}
+
+
+@st.composite
 def toggle_programs(draw):
     """A connective over operands that go back and forth before the whole becomes true."""
     kind = draw(st.sampled_from(['and', 'and', 'nor', 'and3', 'or']))
@@ -420,9 +432,170 @@ class C07(Check):
         main = programs(tier, connectives=False)
         side = programs(tier, connectives=True)
         return st.one_of(main, main, main, main, main, main, side, reuse_programs(), toggle_programs(), exit_programs(),
-                         date_reuse_programs())
+                         date_reuse_programs(), timed_cleanup_cases())
+
+    # ---- directed family: interrupts that arrive while the body is busy with clean-up that takes time
+    @staticmethod
+    def tc_program(tc):
+        dur = tc['dur']
+        if tc['shape'] == 'nested':
+            ds = tc['deadlines']                    # outermost ... innermost
+            inner = [{'op': 'eternity'}]
+            for _ in range(tc['stages']):
+                inner = [{'op': 'cleanup', 'body': inner, 'final': [{'op': 'sleep', 'd': dur}]}]
+            for n, d in enumerate(reversed(ds)):
+                inner = [{'op': 'until', 'notif': ['time_eq', d], 'children': [], 'body': inner}]
+                if n < len(ds) - 1:
+                    inner.append({'op': 'sleep', 'd': 50})        # the enclosing block's body would go on
+            steps = inner + [{'op': 'sleep', 'd': 0.25}]
+        else:
+            # a bounded clean-up: an until-block entered while the outer interrupt is unwinding the body
+            fin = [{'op': 'until', 'notif': tc['inner'], 'children': [], 'body': [{'op': 'eternity'}]}, {'op': 'sleep', 'd': 0.5}]
+            body = [{'op': 'cleanup', 'body': [{'op': 'eternity'}], 'final': fin}]
+            steps = [{'op': 'until', 'notif': ['time_eq', tc['deadlines'][0]], 'children': [], 'body': body}, {'op': 'sleep', 'd': 0.25}]
+        return {'start': 0, 'objs': {'flags': 1, 'tracked': [0], 'conds': []},
+                'roots': [{'name': 'r0', 'steps': [{'op': 'until', 'notif': ['time_eq', 500], 'children': [
+                    {'name': 'a1', 'steps': steps}], 'body': []}]}]}
+
+    @staticmethod
+    def tc_source(tc):
+        """the same program as *one* coroutine function (blocks, clean-up clauses and the code after them share one frame;
+        the DSL interpreter runs every step in a frame of its own)"""
+        L = ['async def act(log):']
+
+        def emit(depth, text):
+            L.append('    ' * depth + text)
+        if tc['shape'] == 'nested':
+            ds, m, dur = tc['deadlines'], tc['stages'], tc['dur']
+            for i, d in enumerate(ds):
+                emit(1 + i, 'async with until(time == %r):' % d)
+            base = 1 + len(ds)
+            for j in range(m):
+                emit(base + j, 'try:')
+            emit(base + m, 'await eternity')
+            for j in reversed(range(m)):
+                emit(base + j, 'finally:')
+                emit(base + j + 1, "log('cleanup_begin')")
+                emit(base + j + 1, 'await (time + %r)' % dur)
+                emit(base + j + 1, "log('cleanup_end')")
+            for i in reversed(range(len(ds))):
+                if i:
+                    emit(1 + i, "log('went_on_inside_block_%d')" % (i - 1))
+                    emit(1 + i, 'await (time + 50)')
+            emit(1, "log('leave')")
+            emit(1, 'await (time + 0.25)')
+            emit(1, "log('ok')")
+        else:
+            inner = tc['inner']
+            cond = {'delay': 'time + %r', 'time_eq': 'time == %r', 'time_ge': 'time >= %r'}[inner[0]] % inner[1]
+            emit(1, 'async with until(time == %r):' % tc['deadlines'][0])
+            emit(2, 'try:')
+            emit(3, 'await eternity')
+            emit(2, 'finally:')
+            emit(3, "log('cleanup_begin')")
+            emit(3, 'async with until(%s):' % cond)
+            emit(4, 'await eternity')
+            emit(3, "log('leave')")
+            emit(3, 'await (time + 0.5)')
+            emit(3, "log('ok')")
+            emit(3, "log('cleanup_end')")
+            emit(1, "log('leave')")
+            emit(1, 'await (time + 0.25)')
+            emit(1, "log('ok')")
+        return '\n'.join(L) + '\n'
+
+    def tc_case(self, case):
+        out = Outcome()
+        out.evals = 1
+        tc = case['tc']
+        dur = tc['dur']
+        ds = sorted(tc['deadlines'])
+        if len(set(ds)) != len(ds) or not ds or (tc['shape'] == 'nested' and dur <= ds[-1] - ds[0]) or min(ds) <= 0:
+            raise InvalidCase('deadlines must be distinct, positive, and closer together than one clean-up stage')
+        want = []
+        if tc['shape'] == 'nested':
+            k, m = len(ds), tc['stages']
+            if not (k - 1 <= m <= k + 1) or m < 1:
+                raise InvalidCase('stages')
+            now = None
+            for i in range(1, m + 1):
+                if i <= k:
+                    now = ds[i - 1]
+                    want.append(('cleanup_begin', now))
+                else:
+                    want.append(('cleanup_begin', now))
+                if i >= k:
+                    now = now + dur
+                    want.append(('cleanup_end', now))
+            end = ds[-1] if m < k else now
+            want += [('leave', end)] * k + [('ok', end + 0.25)]
+        else:
+            t0 = ds[0]
+            inner = tc['inner']
+            t1 = t0 + num(inner[1]) if inner[0] == 'delay' else num(inner[1])
+            if t1 <= t0:
+                raise InvalidCase('inner deadline')
+            want = [('cleanup_begin', t0), ('leave', t1), ('ok', t1 + 0.5), ('cleanup_end', t1 + 0.5), ('leave', t1 + 0.5), ('ok', t1 + 0.75)]
+        prog = self.tc_program(tc)
+        it, outcome, exc, p = execute(prog, Probe(b_step=4000, b_total=40000))
+        if outcome != 'ok':
+            out.fail('run_outcome', 'timed_cleanup:%s:%s' % (outcome, type(exc).__name__), 'run() ended with %s %r' % (outcome, exc))
+        got = [(e[3], e[4]) for e in it.log if e[0] <= it.end_seq and e[1] == 'a1' and e[3] in ('cleanup_begin', 'cleanup_end', 'leave', 'ok')
+               and (e[3] != 'ok' or 'f' not in e[2] or tc['shape'] == 'bounded')]
+        bad = [e for e in it.log if e[0] <= it.end_seq and e[1] == 'a1' and e[3] == 'leave' and e[5] is not None
+               and e[5][0] not in ('signal', 'genexit')]
+        if bad:
+            out.fail('block_exception', 'timed_cleanup:' + str(bad[0][5][0]), 'block left with %r' % (bad[0][5],))
+        if got != want:
+            sig = 'mismatch'
+            for a, b in zip(got, want):
+                if a != b:
+                    sig = ('wrong_time:' + a[0]) if a[0] == b[0] else 'wrong_event'
+                    break
+            else:
+                sig = ('unexpected:' + got[len(want)][0]) if len(got) > len(want) else ('missing:' + want[len(got)][0])
+            out.fail('clock_model', 'timed_cleanup:' + sig, 'until-blocks %r around clean-up that takes time (%r)\n got  %r\n want %r' % (
+                tc['deadlines'], tc, got, want))
+        # the same program written as one coroutine function
+        import usim
+        ns = {'until': usim.until, 'time': usim.time, 'eternity': usim.eternity}
+        exec(self.tc_source(tc), ns)
+        got2 = []
+
+        async def guard():
+            async with usim.until(usim.time == 500):
+                await ns['act'](lambda what: got2.append((what, usim.time.now)))
+        from vlib.probe import _TLS
+        pr = Probe(b_step=4000, b_total=40000)
+        _TLS.stack.append(pr)
+        try:
+            try:
+                usim.run(guard())
+            except BaseException as e:      # noqa
+                out.fail('run_outcome', 'timed_cleanup:one_frame:%s' % type(e).__name__, 'run() ended with %r\n%s' % (e, self.tc_source(tc)))
+        finally:
+            _TLS.stack.pop()
+        out.evals += 1
+        if tc['shape'] == 'nested':
+            want2 = [w for w in want if w[0] != 'leave'][:-1] + [('leave', want[-1][1] - 0.25), want[-1]]
+        else:
+            want2 = want
+        if got2 != want2 and not any(f.oracle == 'run_outcome' for f in out.failures):
+            sig = 'mismatch'
+            for a, b in zip(got2, want2):
+                if a != b:
+                    sig = ('wrong_time:' + a[0]) if a[0] == b[0] else ('wrong_event:' + a[0].rstrip('0123456789'))
+                    break
+            else:
+                sig = ('unexpected:' + got2[len(want2)][0]) if len(got2) > len(want2) else ('missing:' + want2[len(got2)][0])
+            out.fail('clock_model', 'timed_cleanup:one_frame:' + sig, 'got  %r\nwant %r\n%s' % (got2, want2, self.tc_source(tc)))
+        out.features = {'timed_cleanup', 'timed_cleanup_' + tc['shape']}
+        out.nontrivial = True
+        return out
 
     def run_case(self, prog, tier='quick'):
+        if 'tc' in prog:
+            return self.tc_case(prog)
         out = Outcome()
         out.evals = 1
         model = Model(prog)
